@@ -52,6 +52,7 @@ fn main() {
         "mux-stray" => mux::stray(&a),
         "srv-c03" => srv::c03(&a),
         "srv-c02-timeouts" => srv::c02_timeouts(&a),
+        "srv-c02-huge" => srv::c02_huge(&a),
         "ws-c16" => wsx::c16(&a),
         "ws-c17" => wsx::c17(&a),
         "ws-c15" => life::run(&a),
